@@ -10,9 +10,9 @@ NOIGN = [w for w in S.SC + S.SC_EXTRA if w not in ('\x00', '\x7f')]
 
 
 def scopes(quick):
-    sc = [(NOIGN, 3 if quick else 4), (S.ST, 2 if quick else 3)]
+    sc = [(NOIGN, 3), (S.ST, 2)]
     for k in ('env', 'args', 'math', 'verb', 'item', 'esc', 'sig', 'names'):
-        sc.append((S.SUB[k], 3 if quick else 4))
+        sc.append((S.SUB[k], S.words_bound(S.SUB[k], quick)))
     return sc
 
 
